@@ -1095,3 +1095,10 @@ V("twin: harmonic_set with the two diagonal points exchanged", "C11", OPS, _HARM
 # ------------------------------------------------------------------------------------------------ the midpoint of a segment (E19.mid, C17)
 V("midpoint as the harmonic conjugate of the first vertex", "C17", SHAPES, "        return harmonic_set(*self.vertices, l)", "        return harmonic_set(l, self.vertices[1], self.vertices[0])", "E19.mid", "SegmentTensor.midpoint", quick=True)
 V("twin: midpoint with the vertices unpacked by hand", "C17", SHAPES, "        return harmonic_set(*self.vertices, l)", "        a, b = self.vertices\n        return harmonic_set(a, b, l)", "silent")
+
+
+# ------------------------------------------------------------------------------------------------ the circumcenter of a triangle (E19.circ, C17)
+V("circumcenter: the second bisector through the midpoint of the first edge", "C17", SHAPES, "        bisector2 = e2._line.perpendicular(e2.midpoint, plane=self._plane)",
+  "        bisector2 = e2._line.perpendicular(e1.midpoint, plane=self._plane)", "E19.circ", "Triangle.circumcenter", quick=True)
+V("twin: circumcenter from the first and the third edge", "C17", SHAPES, "        bisector2 = e2._line.perpendicular(e2.midpoint, plane=self._plane)",
+  "        bisector2 = e3._line.perpendicular(e3.midpoint, plane=self._plane)", "silent")
